@@ -329,6 +329,16 @@ func VerifC08CrashDuringCommit() {
 	if crashed && k == 0 {
 		verifAssert(beforeOK, "a crash before the first write leaves the state before")
 	}
+	if crashed && id == A {
+		// however torn the commit is (F8): once the new frontier is visible its undo and redo records are durable
+		// (they are written before the first data key), so the torn commit can be rolled back to exactly the state before
+		verifReach("crashed with the new frontier visible", true)
+		verifAssert(m2.GetPatch(A) != nil, "a visible frontier has its redo record")
+		verifAssert(m2.Pop() == nil, "a visible frontier can be rolled back")
+		m3 := verifNewManager(ldb)
+		f3 := m3.Frontier()
+		verifAssert(GetFrontierIdentifier(f3) == G && c07Same(c07Observe(f3, probe), atG.obs(probe)) && m3.GetPatch(A) == nil, "rolling back a torn commit restores exactly the state before")
+	}
 }
 
 func c08Run(f func()) (crashed bool) {
